@@ -747,6 +747,29 @@ impl Monitors {
                         }
                     }
                 }
+                if let AppRes::Err(e) = r {
+                    // an error instead of data: only an aborted connection may cost the reader acknowledged bytes -
+                    // not one that is alive or has closed in good order
+                    let aborted = matches!(&w.done, Some(Err(_))) || self.reset_seen;
+                    if let Some(a) = self.last_ack_nr {
+                        let ai = idx_of(a).min(contig - 1);
+                        let acked_bytes = if ai >= 0 { w.peer_off_of((ai + 1) as usize) } else { 0 };
+                        if acked_bytes > w.read && !aborted {
+                            v.push(f(
+                                "C04",
+                                "ack-honesty",
+                                "ack/acknowledged-data-lost-to-a-reader-error",
+                                format!("poll_read failed with '{e}' after {} bytes although the endpoint had acknowledged {} bytes of the peer's stream and the connection was not aborted ({:?})", w.read, acked_bytes, w.done),
+                            ));
+                            v.push(f(
+                                "C03",
+                                "eof",
+                                "eof/error-instead-of-acknowledged-data",
+                                format!("poll_read failed with '{e}' after {} bytes although the endpoint had acknowledged {} bytes of the peer's stream and the connection was not aborted ({:?})", w.read, acked_bytes, w.done),
+                            ));
+                        }
+                    }
+                }
                 if let AppRes::Eof = r {
                     let total = match w.peer_fin_idx {
                         Some(fi) => w.peer_off_of(fi),
